@@ -77,3 +77,31 @@ Theorem C19_refuted_submit_check_inert :
   forall rd, submit_cores_check (self_with VNone) (DictFacts.sdict rd) = Ok (VTuple [DictFacts.sdict rd]).
 Proof. exact submit_check_inert_without_limit. Qed.
 Print Assumptions C19_refuted_submit_check_inert.
+
+(* ---- REFUTED on the code as it is: witnesses by computation on the executable models
+   (Proofs/Refute.v); each is a recorded finding (KNOWN_FINDINGS.txt) ---- *)
+From EL Require Model.Exec Model.ExecInv Model.StepExec Model.FileExec Model.FileSpec Model.CacheExec Proofs.FileSafe Proofs.FileRefute Proofs.CacheSafe Proofs.Refute.
+Module RefutedC19.
+Import Exec ExecInv StepExec FileExec FileSpec CacheExec FileSafe FileRefute CacheSafe Refute.
+Import ListNotations.
+
+(* finding D14c: a per-call request that can never be satisfied (2 slots, max_cores = 1) is accepted; the dispatcher sits in its wait loop with nothing to wait for and shutdown(wait=True) blocks *)
+Theorem C19_refuted_oversized_request_accepted_then_spins :
+  xmax_cores d14_cfg = Some 1 /\ xslots d14_cfg 1 = 2
+  /\ xrun d14_cfg d14_sched1 d14_init = Some d14_x1
+  /\ disp d14_x1 = DSpin 1 /\ active d14_x1 = []                      (* waiting, nothing to wait for *)
+  /\ xstep d14_cfg d14_x1 TD = None
+  /\ getf (base d14_x1) 1 = FPending
+  /\ ws (base d14_x1) = [] /\ launched d14_x1 = 0                     (* no worker was ever started *)
+  /\ xenabled d14_cfg d14_x1 = [TM]
+  /\ xreach d14_cfg d14_init d14_x1
+  /\ xstep d14_cfg d14_x1 TM = Some (d14_x2, LPut 0 (Shut true))
+  /\ xenabled d14_cfg d14_x2 = []                                     (* nothing can move *)
+  /\ main (base d14_x2) = MJoin 0                                     (* the client: in join of D *)
+  /\ ops (base d14_x2) = [OShutdown true false; ODrop]
+  /\ main (base d14_x2) <> MEnd
+  /\ disp d14_x2 = DSpin 1 /\ getf (base d14_x2) 1 = FPending
+  /\ xreach d14_cfg d14_init d14_x2.
+Proof. exact percall_oversized_request_spins. Qed.
+Print Assumptions C19_refuted_oversized_request_accepted_then_spins.
+End RefutedC19.
